@@ -173,7 +173,11 @@ type W7T struct {
 	M map[string]float64 `json:"m"`
 	N map[string]bool    `json:"n"`
 	K map[string]float32 `json:"k"`
-	Z int64              `json:"z"`
+	// zero-size fixed where the decoder has to allocate the value itself
+	P0 *[0]byte           `json:"p0"`
+	M0 map[string][0]byte `json:"m0"`
+	P1 *[1]byte           `json:"p1"`
+	Z  int64              `json:"z"`
 }
 
 type W5T struct {
@@ -239,7 +243,8 @@ func init() {
 		// W7: arrays and maps of every fixed-width item (block-wise copies,
 		// counts multiplied by an item width)
 		{"W7", rec("W7", fld("f", arr(P("float"))), fld("d", arr(P("double"))), fld("g", arr(P("double"))), fld("b", arr(P("boolean"))), fld("i", arr(P("int"))), fld("s", arr(P("int"))),
-			fld("x", arr(fixed("W7x", 4))), fld("m", mp(P("double"))), fld("n", mp(P("boolean"))), fld("k", mp(P("float"))), fld("z", P("long"))),
+			fld("x", arr(fixed("W7x", 4))), fld("m", mp(P("double"))), fld("n", mp(P("boolean"))), fld("k", mp(P("float"))),
+			fld("p0", un(P("null"), fixed("W7p", 0))), fld("m0", mp(fixed("W7m", 0))), fld("p1", un(P("null"), fixed("W7q", 1))), fld("z", P("long"))),
 			reflect.TypeFor[W7T]()},
 	}
 }
